@@ -1004,6 +1004,11 @@ def merge(chunks, real_text):
                 # the ghost result of a `return` statement that no longer exists
                 dropped.append({'kind': 'annotation-of-deleted-code', 'text': t.strip()[:80], 'deleted': 'return'})
                 continue
+            if p < len(r0) and r0[p] in ('return', 'break', 'continue') and nxt is None and re.match(r'\s*(proof\s*\{|assert\b)', t):
+                # a hint that justifies an exit (`proof {..} return;`) belongs to that exit: when the exit statement is gone the hint goes with
+                # it - re-anchored to the token before, it would land in whatever now occupies the branch (possibly the opposite case)
+                dropped.append({'kind': 'annotation-of-deleted-code', 'text': t.strip()[:80], 'deleted': r0[p]})
+                continue
             choice = None
             if nxt is not None and prv is not None:
                 if nxt == prv + 1:
